@@ -86,7 +86,8 @@ def impl(op, a, ctx):
     F = Fields(a)
     if op == 'tr_sign':
         kb = F.bytes(); F.bytes()
-        priv = KEYS.setdefault(kb, PrivateKey(b=kb))         # one object per secret for the whole run; s = TT.parse_scripts(F); digest = F.bytes(); ht = F.nat(); tweak = F.bool(); F.done()
+        priv = KEYS.setdefault(kb, PrivateKey(b=kb))         # one object per secret for the whole run
+        s = TT.parse_scripts(F); digest = F.bytes(); ht = F.nat(); tweak = F.bool(); F.done()
         sig1 = priv._sign_taproot_input(digest, ht, TT.scripts_py(s), tweak)
         sig2 = priv._sign_taproot_input(digest, ht, TT.scripts_py(s), tweak)
         return 'ok ' + (sig1 if sig1 == sig2 else 'nondeterministic')
